@@ -927,5 +927,5 @@ class CompilerHolder(ObjectHolder['Compiler']):
         self.interpreter.add_target(tg.name, tg)
         # Expose this target as list of its outputs, so user can pass them to
         # other targets, list outputs, etc.
-        private_dir = os.path.relpath(self.interpreter.backend.get_target_private_dir(tg), self.interpreter.subdir)
+        private_dir = os.path.relpath(self.interpreter.backend.get_target_private_dir(tg), self.interpreter.backend.get_target_dir(tg))
         return [build.CustomTargetIndex(tg, os.path.join(private_dir, o)) for o in tg.outputs]
